@@ -2,6 +2,7 @@ import Falcon.Model.KeygenSkel
 import Falcon.Gen.Scan
 import Falcon.Model.Keygen
 import Falcon.Lemmas.ChaChaStream
+import Falcon.Lemmas.GenPolyStream
 
 /-!
 # C15 — key generation is a deterministic function of the seed
@@ -53,5 +54,12 @@ theorem keystream_is_one_stream (seed : List Nat) (a b : Nat) :
     ChaCha.byteStream seed (a + b) = ChaCha.byteStream seed a ++ ChaCha.byteStreamFrom seed a b ∧
     (ChaCha.byteStream seed (a + b)).take (16 * a) = ChaCha.byteStream seed a :=
   ⟨ChaCha.byteStream_add seed a b, ChaCha.keystream_prefix seed a b⟩
+
+/-- what `gen_poly` leaves unread is its input stream minus a prefix — g is drawn exactly where f stopped, and the next
+    candidate where g stopped (with `candidate_window_is_the_keystream`: all of them consecutively from the one keystream
+    of the seed) -/
+theorem gen_poly_reads_a_prefix (chk : Bool) (n : Nat) (stream : List Nat) (p : List Int) (rest : List Nat)
+    (h : KeygenSkel.genPoly chk n stream = .ok (some (p, rest))) : ∃ k, rest = stream.drop k :=
+  KeygenSkel.genPoly_reads_a_prefix chk n stream p rest h
 
 end Falcon.Props.C15
